@@ -11,12 +11,13 @@ sim_hooks_t sim_hooks;
 uint64_t sim_now = 1000;
 FILE *sim_trace;
 int sim_trace_io = 1;
+int sim_nested_wait = 0;           /* opt-in: a wait that libcoap itself starts (not the scheduler) blocks in virtual time */
 int sim_trace_dg = 1;              /* log the simulator's own Tx / Rx / Lost / Tick events */
 int sim_steps;
 
 typedef struct { int used; int epfd; int fd; coap_socket_t *sock; uint32_t events; } sim_sock_t;
 static sim_sock_t socks[SIM_MAX_SOCKS];
-typedef struct { coap_context_t *ctx; int epfd; uint64_t deadline; int used; int in_io; } sim_node_t;
+typedef struct { coap_context_t *ctx; int epfd; uint64_t deadline; int used; int in_io; int calls; } sim_node_t;
 static sim_node_t nodes[SIM_MAX_NODES];
 static sim_dgram_t *dgs;
 static int ndg;
@@ -316,15 +317,9 @@ deliverable_for(coap_socket_t *sock) {
 /* extra event sources (stream sockets etc.) supplied by drivers */
 int (*sim_extra_events)(int epfd, struct epoll_event *events, int max);
 
-int
-__wrap_epoll_wait(int epfd, struct epoll_event *events, int maxevents, int timeout) {
-  int n = 0, i, node = node_of_epfd(epfd);
-  int cap = maxevents > 9 ? 9 : maxevents; /* never return COAP_MAX_EPOLL_EVENTS */
-  if (node >= 0 && timeout != 0) {
-    nodes[node].deadline = timeout < 0 ? UINT64_MAX : sim_now + (uint64_t)timeout;
-    if (sim_trace_io)
-      tr("\"e\":\"Io\",\"node\":%d,\"wait\":%d", node, timeout);
-  }
+static int
+ready_events(int epfd, struct epoll_event *events, int cap) {
+  int n = 0, i;
   for (i = 0; i < SIM_MAX_SOCKS && n < cap; i++) {
     if (!socks[i].used || socks[i].epfd != epfd)
       continue;
@@ -338,6 +333,51 @@ __wrap_epoll_wait(int epfd, struct epoll_event *events, int maxevents, int timeo
   }
   if (sim_extra_events && n < cap)
     n += sim_extra_events(epfd, events + n, cap - n);
+  return n;
+}
+
+int
+__wrap_epoll_wait(int epfd, struct epoll_event *events, int maxevents, int timeout) {
+  int n = 0, node = node_of_epfd(epfd);
+  int cap = maxevents > 9 ? 9 : maxevents; /* never return COAP_MAX_EPOLL_EVENTS */
+  if (node >= 0 && timeout != 0) {
+    nodes[node].deadline = timeout < 0 ? UINT64_MAX : sim_now + (uint64_t)timeout;
+    if (sim_trace_io)
+      tr("\"e\":\"Io\",\"node\":%d,\"wait\":%d", node, timeout);
+  }
+  n = ready_events(epfd, events, cap);
+  if (n == 0 && sim_nested_wait && timeout > 0 && node >= 0 && (!nodes[node].in_io || nodes[node].calls > 0)) {
+    /* a wait started by libcoap itself (e.g. coap_client_delay_first) or by the application, not by the scheduler:
+       it really blocks -- let the other nodes run and virtual time pass until something arrives or the timeout is over */
+    uint64_t end = sim_now + (uint64_t)timeout;
+    int saved = nodes[node].in_io, guard;
+    nodes[node].in_io = 1;
+    for (guard = 0; guard < 100000; guard++) {
+      uint64_t next;
+      int g2 = 0;
+      while (sim_round() > 0 && ++g2 < 10000);
+      n = ready_events(epfd, events, cap);
+      if (n)
+        break;
+      next = sim_next_event_time();
+      if (next == UINT64_MAX || next >= end) {
+        sim_now = end;
+        break;
+      }
+      if (next > sim_now)
+        sim_now = next;
+      else {
+        int i;             /* a deadline at this very instant that a round did not consume */
+        for (i = 0; i < SIM_MAX_NODES; i++)
+          if (nodes[i].used && i != node && nodes[i].deadline <= sim_now)
+            nodes[i].deadline = UINT64_MAX;
+      }
+    }
+    nodes[node].in_io = saved;
+    nodes[node].deadline = UINT64_MAX;
+  }
+  if (node >= 0)
+    nodes[node].calls++;
   return n;
 }
 
@@ -507,6 +547,7 @@ sim_round(void) {
       taken0 += dgs[j].taken;
     before = ndg;
     nodes[i].in_io = 1;
+    nodes[i].calls = 0;
     coap_io_process(nodes[i].ctx, COAP_IO_WAIT);
     nodes[i].in_io = 0;
     for (j = 0; j < ndg; j++)
